@@ -2,7 +2,7 @@
    witnesses for the sharing that the current code still has. *)
 From Coq Require Import ZArith List Bool Lia.
 Import ListNotations.
-Require Import PyBase Heap HeapFacts HeapFrame HeapCopy HeapHistory HeapSim HeapOps HeapLinkerSim HeapProtect HeapLinkerCopySim HeapLinkerInit.
+Require Import PyBase Heap HeapFacts HeapFrame HeapCopy HeapHistory HeapSim HeapOps HeapLinkerSim HeapProtect HeapLinkerCopySim HeapLinkerInit HeapForest.
 Open Scope Z_scope.
 
 Fixpoint nodupb (l : list Z) : bool := match l with [] => true | x :: r => negb (zmem x r) && nodupb r end.
@@ -391,3 +391,30 @@ Proof.
     + apply (Sp 3%nat 1%nat 21%nat 8%nat); [discriminate | reflexivity | reflexivity].
     + apply (Sp 3%nat 0%nat 21%nat 4%nat); [discriminate | reflexivity | reflexivity].
 Qed.
+
+(* ---- hypotheses of ops_create_no_internal_alias are satisfiable: a traced model instance (location 5) of a class whose CHECK IS
+   its ENDOGENOUS list (so the class region, below N = 5, is not a forest — it does not matter); a history with traced solves in
+   every mode, add_variable, list edits of names / check and of a Trace's names *)
+Definition forest_ops : list op :=
+  solve_ops 1 [(201, 7)] 2 123 4 (Some (TMClass, 501, 503, 505))
+  ++ [OAddVariable 207 109 [1; 2; 3]; OTraceT 2 507 TMNames false; OTraceT 0 507 (TMUser [201; 205]) true;
+      OListAppend N_names 209; OListAppend N_check 205; OPathAppend [V N_trace; 1; A N_names] 777; OSetAttrList 211 [1; 2]].
+
+Example ex_forest_hypotheses :
+  nth_error (sroots s_tr) 1 = Some 5%nat /\ (5 <= 5 < length (sh s_tr))%nat /\ wf (sh s_tr) /\ closed_above 5 (sh s_tr) /\
+  forest 5 (sh s_tr) /\ orphan 5 (sh s_tr) 5%nat /\ forallb op_fresh forest_ops = true /\
+  forestb 0 (sh s_tr) = false.
+Proof.
+  split; [reflexivity|]. split; [vm_compute; lia|]. split; [apply wfb_sound; vm_compute; reflexivity|].
+  split; [apply closed_aboveb_sound; vm_compute; reflexivity|].
+  split; [apply forestb_sound; vm_compute; reflexivity|].
+  split; [apply orphanb_sound; vm_compute; reflexivity|]. split; vm_compute; reflexivity.
+Qed.
+
+(* NOT proved in general, observed on this instance (and by the correspondence on every case, whose oracle records the aliasing
+   inside each original and each copy): copy() — either memo policy — and instantiation also keep the region a forest *)
+Example ex_forest_through_copy_and_init :
+  let s1 := run_hevents K0 s_tr [HOps 1 forest_ops; HEv (ECopy 1); HEv (EInit 0 (args list_span)); HOps 2 forest_ops] in
+  let s2 := run_hevents K1 s_tr [HOps 1 forest_ops; HEv (ECopy 1); HEv (EInit 0 (args list_span)); HOps 2 forest_ops] in
+  forestb 5 (sh s1) = true /\ forestb 5 (sh s2) = true /\ root_views s1 7 = root_views s2 7.
+Proof. vm_compute. repeat split; reflexivity. Qed.
